@@ -9,6 +9,7 @@
 -/
 import SA.Model.Handshake
 import SA.Gen.C04
+import SA.Gen.C04Args
 namespace SA.Security
 open SA.Handshake
 
@@ -28,6 +29,40 @@ def guard (mustSecure : Bool) (r : CliResult) : Connect :=
 /-- any of the five `Connect` functions after the carrier is up (`secure0` = carrier already encrypted) -/
 def connect (secure0 mustSecure : Bool) (tls : B → Bool) (chunks : List B) : Connect :=
   guard mustSecure (clientRun secure0 tls chunks)
+
+/-! ### what every upstream kind tells the handshake about its carrier
+
+`NewClientConnection(carrier, manager, <secure argument>, host)`: the argument is regenerated per kind
+(`Gen.c04SecureArgs`, source text + class) and evaluated here in the situation the `Connect` runs in. -/
+
+/-- the situation of one `Connect`: is the carrier it dialled really a TLS connection (only possible for the `+tls`,
+    `https`, `wss` schemes), is a udp shared secret (AES, not TLS) configured, does the caller require security -/
+structure KindEnv where
+  carrierTls : Bool
+  sharedSecret : Bool
+  mustSecure : Bool
+  deriving DecidableEq, Repr
+
+def upstreamKinds : List String := ["socket", "http", "packet", "stdio", "dns"]
+
+/-- class of the `secure` argument of a kind (`other` when the kind is missing from the regenerated table) -/
+def secureArgClass (kind : String) : String :=
+  match Gen.c04SecureArgs.find? (fun r => r.1 == kind) with
+  | some r => r.2.2.2
+  | none => "other"
+
+/-- the value the argument has in the situation `e`.  An expression the extractor does not recognise is read
+    pessimistically: the handshake is told the carrier is secure. -/
+def secureArgValue (cls : String) (e : KindEnv) : Bool :=
+  if cls == "false" then false
+  else if cls == "tlsBranchVar" then e.carrierTls
+  else if cls == "passwordVar" then e.sharedSecret
+  else if cls == "mustSecure" then e.mustSecure
+  else true
+
+/-- `Connect` of the given upstream kind after its carrier is up -/
+def connectKind (kind : String) (e : KindEnv) (tls : B → Bool) (chunks : List B) : Connect :=
+  connect (secureArgValue (secureArgClass kind) e) e.mustSecure tls chunks
 
 /-- Upstreams.open over the endpoint list: the first endpoint whose Connect succeeds is stored
     (`ul.connection = a`); each endpoint is a peer script with its own carrier security. -/
@@ -73,5 +108,58 @@ def honestPair (scfg : SrvCfg) (csecure : Bool) (tlsOk : Bool) : Pair :=
   let reply2 := (s2.written.map render).flatten
   let c2 := clientRun csecure tls [reply2]
   ⟨s2.out, c2.out⟩
+
+/-! ### one cell of the end-to-end grid (`seckinds`): real client kind against the real server of that kind -/
+
+def tlsSchemes : List String := ["tcp+tls", "wss", "stdio+tls"]
+
+/-- upstream kind serving a scheme of the grid -/
+def kindOfScheme (scheme : String) : String :=
+  if scheme == "tcp" || scheme == "tcp+tls" then "socket"
+  else if scheme == "ws" || scheme == "wss" then "http"
+  else if scheme == "udp" then "packet"
+  else if scheme == "stdio" || scheme == "stdio+tls" then "stdio"
+  else if scheme == "dns" then "dns"
+  else "?"
+
+inductive Cell
+  | noserver                       -- a TLS endpoint without a certificate does not start
+  | refused                        -- no session on the client
+  | est (tech : Tech) (secure : Bool) (echo : Bool) (clear : Bool)
+  deriving DecidableEq, Repr
+
+/-- hypothesis table for crypto/tls + x509 with the rig's certificate (names `localhost`, 127.0.0.1; signed by the rig
+    CA): a verifying client accepts it iff it has the CA and addresses the server by a name on the certificate.
+    `tcp`/`ws`/`udp` upstreams are addressed as 127.0.0.1, stdio passes no host, dns passes the tunnel domain. -/
+def hostOnCert (scheme : String) : Bool := !(scheme == "stdio" || scheme == "stdio+tls" || scheme == "dns")
+
+/-- does crypto/tls accept the server certificate under this client configuration (see `hostOnCert`) -/
+def accepts (scheme : String) (insecure ca : Bool) : Bool := insecure || (ca && hostOnCert scheme)
+
+/-- one cell, given the verdict `acc` of the client's certificate verification -/
+def cellCore (scheme : String) (scert must acc : Bool) : Cell :=
+  let ctls := tlsSchemes.contains scheme
+  if ctls && !scert then .noserver
+  else
+    -- the carrier: TLS schemes dial TLS first (stdin+tls never verifies)
+    let carrierOk := !ctls || scheme == "stdio+tls" || acc
+    if !carrierOk then .refused
+    else
+      let e : KindEnv := ⟨ctls, false, must⟩
+      let s0 := secureArgValue (secureArgClass (kindOfScheme scheme)) e
+      let scfg : SrvCfg := ⟨ctls, if scert then .ok else .empty⟩
+      let p := honestPair scfg s0 acc
+      match p.client with
+      | .established _ t s _ =>
+        if must && !s then .refused
+        else
+          let echo := match p.server with
+            | .established _ ts _ _ => (t == .tls) == (ts == .tls)
+            | _ => false
+          .est t s echo (!(ctls || t == .tls))
+      | _ => .refused
+
+def cell (scheme : String) (scert must insecure ca : Bool) : Cell :=
+  cellCore scheme scert must (accepts scheme insecure ca)
 
 end SA.Security
